@@ -23,7 +23,7 @@ func (a algorithmHashRelatedBlankNode) Call() string {
 	// [spec // 4.7.3 // 2] If position is not g, append <, the value of the predicate in quad, and > to input.
 
 	if a.position != "g" {
-		input += "<" + a.quad.PredicateEncoded + ">"
+		input += a.quad.PredicateEncoded // already written as <iri>
 	}
 
 	// [spec // 4.7.3 // 3] If there is a canonical identifier for related, or an identifier issued by issuer, append the
